@@ -6,6 +6,8 @@ import (
 	"os"
 	"path/filepath"
 	"strings"
+	"sync"
+	"sync/atomic"
 	"time"
 
 	"verif/harness/model"
@@ -134,6 +136,12 @@ func checkC09(ctx *Ctx) {
 		if ctx.Mine(i + 3) {
 			ctx.SetCurrent(fmt.Sprintf("C09 concurrent writer case %d", i))
 			c09Concurrent(ctx, i)
+		}
+	}
+	for i := 0; i < ctx.N(12, 60); i++ {
+		if ctx.Mine(i + 1) {
+			ctx.SetCurrent(fmt.Sprintf("C09 cross-database writer case %d", i))
+			c09CrossDatabase(ctx, i)
 		}
 	}
 }
@@ -540,4 +548,114 @@ func patternOf(script []string) string {
 		}
 	}
 	return "?"
+}
+
+// c09CrossDatabase: a client in another database gets its write into the log while the rewrite is on its
+// way to the log truncation (the rewrite is parked between the preamble and the truncation, the writer is
+// parked inside the log store's Write, the rewrite is released first and the writer shortly after - the short
+// real-time pause only steers the schedule, the verdict does not depend on it). After the rewrite has
+// finished, further writes are acknowledged in that database and in database 0. Whatever happens to the one
+// write inside the rewrite window (listed finding C09-KF3), every write acknowledged after the rewrite must
+// come back, after a restart, in the database it was written to.
+func c09CrossDatabase(ctx *Ctx, i int) {
+	otherDB := []int{1, 12, 3}[i%3]
+	root := mkScratch("c09x")
+	defer os.RemoveAll(root)
+	dir := root + "/data"
+	_ = os.MkdirAll(dir, 0o755)
+	clk := NewVClock()
+	run, err := newPRunner(dir, "always", false, false, clk)
+	if err != nil {
+		ctx.Broken("C09 cross-database: " + err.Error())
+		return
+	}
+	defer run.close()
+	in := run.in
+	for _, c := range [][]string{{"SET", "base0", "v"}, {"RPUSH", "lst0", "a"}} {
+		in.Do(c...)
+	}
+	if i%2 == 1 {
+		_ = in.S.SelectDB(otherDB)
+		in.Do("SET", "base-other", "v")
+		_ = in.S.SelectDB(0)
+		in.Do("SET", "back-in-0", "v") // the log's current database is 0 again when the rewrite starts
+	}
+	var rewriteG, writerG atomic.Int64
+	rParked, wParked := make(chan struct{}), make(chan struct{})
+	rRelease, wRelease := make(chan struct{}), make(chan struct{})
+	var rOnce, wOnce sync.Once
+	setHook(func(name string, args ...interface{}) {
+		g := goid()
+		switch {
+		case name == "rewrite.between" && g == rewriteG.Load():
+			rOnce.Do(func() { close(rParked); <-rRelease })
+		case name == "aof.write.begin" && g == writerG.Load():
+			wOnce.Do(func() { close(wParked); <-wRelease })
+		}
+	})
+	defer setHook(nil)
+	rdone := make(chan string, 1)
+	go func() {
+		rewriteG.Store(goid())
+		v, _, crash := in.Do("REWRITEAOF")
+		rdone <- v.String() + crash
+	}()
+	select {
+	case <-rParked:
+	case <-time.After(30 * time.Second):
+		close(rRelease)
+		ctx.Inconclusive("cross-database: the rewrite never reached rewrite.between")
+		return
+	}
+	_ = in.S.SelectDB(otherDB)
+	wdone := make(chan string, 1)
+	go func() {
+		writerG.Store(goid())
+		v, _, crash := in.Do("SET", "w:in", "written-during-the-rewrite")
+		wdone <- v.String() + crash
+	}()
+	select {
+	case <-wParked:
+		close(rRelease)
+		time.Sleep(60 * time.Millisecond) // lets the rewrite run up to the log store's lock (steering only)
+		close(wRelease)
+	case <-time.After(2 * time.Second):
+		// the writer did not get into the log store (it is waiting elsewhere): let everything go
+		close(rRelease)
+		close(wRelease)
+	}
+	wres := <-wdone
+	rres := <-rdone
+	setHook(nil)
+	// acknowledged after the rewrite has finished
+	var after []string
+	for _, c := range [][]string{{"SET", "after-other", "v"}, {"RPUSH", "after-list", "x", "y"}, {"INCR", "after-counter"}} {
+		v, _, _ := in.Do(c...)
+		after = append(after, fmt.Sprintf("[db %d] %s -> %s", otherDB, Step{Argv: c}.String(), v.String()))
+	}
+	_ = in.S.SelectDB(0)
+	v, _, _ := in.Do("SET", "after-zero", "v")
+	after = append(after, fmt.Sprintf("[db 0] SET after-zero v -> %s", v.String()))
+	want := run.canon()
+	ctx.Eval(1)
+	ctx.Class(fmt.Sprintf("cross-database|db%d|preexisting-other=%v", otherDB, i%2 == 1))
+	clk.Advance(500e6)
+	d, rdir, rerr := restoreDump(dir, "always", clk, true, false, nil)
+	os.RemoveAll(rdir)
+	if rerr == nil && findingOpen("C09-KF3") {
+		// the one write inside the rewrite window may be lost (listed): it is taken out of the comparison
+		for _, m := range []map[int]map[string]string{want, d} {
+			if db, ok := m[otherDB]; ok {
+				delete(db, "w:in")
+				if len(db) == 0 {
+					delete(m, otherDB)
+				}
+			}
+		}
+	}
+	if rerr != nil || !canonEq(want, d) {
+		ctx.Violate(Violation{Kind: "concurrent", Lane: "rewrite-cross-database",
+			What: fmt.Sprintf("a write in database %d was logged (%s) while the rewrite was between the preamble and the log truncation (REWRITEAOF replied %s); writes acknowledged AFTER the rewrite (%v) are not where they were written after a restart: %v %s", otherDB, wres, rres, after, rerr, model.DiffCanon(want, d)),
+			Case: map[string]interface{}{"database": otherDB, "after": after}, Key: "rewrite|cross-database"})
+	}
 }
